@@ -91,12 +91,14 @@ def bonds_of(arr):
     return sorted([int(x), int(y), int(t)] for x, y, t in arr.bonds.as_array().tolist())
 
 
-def roundtrip(arr, fmt, extra):
-    """set_structure -> serialise -> parse -> get_structure. Returns (oc, result)."""
+def roundtrip(arr, fmt, extra, opt=None):
+    """set_structure -> serialise -> parse -> get_structure. Returns (oc, result).
+    `opt` is the caller's extra_fields list; a caller reads many files with the same list."""
     import biotite.structure as struc
     import biotite.structure.io.pdbx as pdbx
 
-    opt = list((extra or {}).get("opt", {})) + list((extra or {}).get("custom", {}))
+    if opt is None:
+        opt = list((extra or {}).get("opt", {})) + list((extra or {}).get("custom", {}))
     try:
         if fmt == "cif":
             f = pdbx.CIFFile()
@@ -274,7 +276,9 @@ _RES = [("ALA", False, ["N", "CA", "C", "O", "CB"]), ("GLY", False, ["N", "CA", 
         ("SER", False, ["N", "CA", "C", "O", "CB", "OG"]), ("DA", False, ["P", "OP1", "O5'", "C5'", "C3'", "O3'"]),
         ("DG", False, ["P", "O5'", "C3'", "O3'"]), ("LIG", True, ["C1", "C2", "O1", "N1"]),
         ("HOH", True, ["O"]), ("XAA", True, ["X1", "X'2", 'X"3', "X 4"]), ("Q'Z", True, ["A1", "B2", "C_3"]),
-        ("NA", True, ["NA"])]
+        ("NA", True, ["NA"]),
+        # atom names whose concatenations are ambiguous ("C1"+"1H" = "C11"+"H", "C"+"11H")
+        ("JN", True, ["C1", "1H", "C11", "H", "C", "11H"])]
 
 
 def gen_struct(item):
@@ -316,6 +320,14 @@ def gen_struct(item):
                 if (i, j) not in pairs:
                     pairs.add((i, j))
                     B.append([i, j, rng.choice([1, 1, 1, 2, 3, 4, 5, 6, 7, 9, 0, 8])])
+        # residues with ambiguous name concatenations get the bonds that make them collide
+        for i, a in enumerate(A):
+            if a[3] == "JN" and a[5] == "C1" and rng.random() < 0.7:
+                names = {A[j][5]: j for j in range(n) if A[j][:4] == a[:4]}
+                for x, y in (("C1", "1H"), ("C11", "H"), ("C", "11H")):
+                    if x in names and y in names and (min(names[x], names[y]), max(names[x], names[y])) not in pairs:
+                        pairs.add((min(names[x], names[y]), max(names[x], names[y])))
+                        B.append([min(names[x], names[y]), max(names[x], names[y]), rng.choice([1, 2])])
         B.sort()
     nm = rng.choice([1, 1, 2, 4])
     extra = {"models": [[rng.randint(-9999, 9999) for _ in range(n)] for _ in range(nm)],
@@ -336,12 +348,17 @@ def gen_struct(item):
         extra["custom"]["my_note"] = [rng.choice(["a", "b c", "it's", 'q"q', "x_y"]) for _ in range(n)]
     arr = build(A, B, extra)
     events = []
+    # one extra_fields list, defined once by the caller and used for every read
+    fields = list(extra["opt"]) + list(extra["custom"])
+    fields_before = list(fields)
     for fmt in FORMATS:
         progress({"A": A, "B": B, "fmt": fmt})
-        oc, res = roundtrip(arr, fmt, extra)
+        oc, res = roundtrip(arr, fmt, extra, opt=fields)
         ev = {"fmt": fmt, "A": A, "B": B if B is not None else [], "oc": oc, "has_bonds": B is not None}
         if oc == "ok":
             req, why = rest_equal(arr, res)
+            if fields != fields_before:
+                req, why = False, why + [f"get_structure changed the caller's extra_fields list to {fields}"]
             rB = bonds_of(res)
             ev.update({"rA": atoms_of(res), "rB": rB if rB is not None else [], "rest_equal": req and ((rB is None) == (B is None)),
                        "rest_why": why})
